@@ -1,6 +1,7 @@
 """C20 clause 1: compiling the same source twice produces identical files, under every environment
 nondeterminism the compiler can see. The real tools/tzcompiler.py runs as a subprocess of
 /venv/bin/python; the seed draws the perturbations of each run."""
+import ast
 import hashlib
 import json
 import os
@@ -68,10 +69,13 @@ def perturbation(seed, index):
         'shim': index != 0 and rng.random() < 0.8,   # run 0 is the unperturbed control
         'stale_outputs': index != 0 and rng.random() < 0.4,  # output directory already holds older files
         'home_user': 0 if index == 0 else rng.randint(0, 3),  # HOME / USER / LOGNAME / HOSTNAME / TMPDIR variants
+        # the same user compiled a DIFFERENT source earlier with the same command line, in the same directory, home
+        # and temporary directory (a per-user or per-directory cache, a leftover work file, would carry over)
+        'prior_other': index != 0 and rng.random() < 0.35,
     }
 
 
-def compile_once(repo, src, workdir, cfg, pert):
+def compile_once(repo, src, workdir, cfg, pert, _prior=False):
     scope, language, actions, start, until = CONFIGS[cfg][:5]
     extra = list(CONFIGS[cfg][5]) if len(CONFIGS[cfg]) > 5 else []
     cwd = workdir
@@ -79,6 +83,11 @@ def compile_once(repo, src, workdir, cfg, pert):
         cwd = os.path.join(cwd, 'd%d' % d)
     os.makedirs(cwd, exist_ok=True)
     # identical command line in every run: the invocation string is copied into the headers by design
+    if pert.get('prior_other') and not _prior:
+        # history fault: first compile the decoy source (same names, other contents) here, then remove its outputs
+        compile_once(repo, src + '-decoy', workdir, cfg, dict(pert, stale_outputs=False), _prior=True)
+        shutil.rmtree(os.path.join(cwd, 'out'), ignore_errors=True)
+        os.unlink(os.path.join(cwd, 'in'))
     if not os.path.exists(os.path.join(cwd, 'in')):
         os.symlink(src, os.path.join(cwd, 'in'))
     out = os.path.join(cwd, 'out')
@@ -98,10 +107,18 @@ def compile_once(repo, src, workdir, cfg, pert):
     env.update({'PYTHONHASHSEED': str(pert['hashseed']), 'TZ': pert['tz'], 'LANG': pert['lang'],
                 'LC_ALL': pert['lang'], 'PYTHONDONTWRITEBYTECODE': '1'})
     hu = pert.get('home_user', 0)
+    # every run has a private, writable, initially empty home and temporary directory inside its work directory:
+    # nothing is read from or left in the real account, and what one compilation leaves there is seen by the next
+    # compilation of the same run only (the prior_other fault)
+    env.update({'HOME': os.path.join(workdir, 'home%d' % hu), 'TMPDIR': os.path.join(workdir, 'tmp%d' % hu)})
+    for k in ('XDG_CACHE_HOME', 'XDG_CONFIG_HOME', 'XDG_DATA_HOME', 'XDG_STATE_HOME'):
+        env.pop(k, None)
+    os.makedirs(env['HOME'], exist_ok=True)
+    os.makedirs(env['TMPDIR'], exist_ok=True)
     if hu:
-        env.update({'HOME': '/nonexistent/home%d' % hu, 'USER': 'builder%d' % hu, 'LOGNAME': 'builder%d' % hu,
-                    'HOSTNAME': 'buildhost%d' % hu, 'TMPDIR': os.path.join(workdir, 'tmp%d' % hu)})
-        os.makedirs(env['TMPDIR'], exist_ok=True)
+        env.update({'USER': 'builder%d' % hu, 'LOGNAME': 'builder%d' % hu, 'HOSTNAME': 'buildhost%d' % hu})
+        if hu == 3:
+            env['XDG_CACHE_HOME'] = os.path.join(workdir, 'xdgcache')
     if pert['shim']:
         env['PYTHONPATH'] = HERE
         env['DETCOMPILE_SEED'] = str(pert['shim_seed'])
@@ -137,7 +154,18 @@ def canonical(data):
     for line in data.decode('utf-8', 'replace').split('\n'):
         m = _REASON_RE.match(line)
         if m:
-            toks = sorted(t.strip() for t in m.group(2).split(','))
+            body = m.group(2).strip()
+            toks = None
+            if body.startswith('[') and body.endswith(']'):
+                # the Python-language generator prints the reasons as the repr of a list
+                try:
+                    val = ast.literal_eval(body)
+                    if isinstance(val, (list, tuple, set)):
+                        toks = sorted(str(t).strip() for t in val)
+                except (ValueError, SyntaxError):
+                    toks = sorted(t.strip().strip('\'"') for t in body[1:-1].split(','))
+            if toks is None:
+                toks = sorted(t.strip() for t in body.split(','))
             line = m.group(1) + '(' + ', '.join(toks) + ')'
         out.append(line)
     return '\n'.join(out)
@@ -177,13 +205,14 @@ def run(prop, tier, verif_seed):
     exit_code = 0
     stats = {'compilations': 0, 'files_compared': 0, 'bytes_compared': 0, 'reason_lines_canonicalised': 0,
              'raw_byte_differences_excused': 0}
-    fault_counts = {'home_user_host_changed': 0, 'stale_outputs_present': 0, 'hashseed_changed': 0, 'clock_jumping': 0, 'listing_shuffled': 0, 'tz_changed': 0,
+    fault_counts = {'prior_compile_of_other_source': 0, 'home_user_host_changed': 0, 'stale_outputs_present': 0, 'hashseed_changed': 0, 'clock_jumping': 0, 'listing_shuffled': 0, 'tz_changed': 0,
                     'locale_changed': 0, 'cwd_depth_changed': 0, 'umask_changed': 0}
     samples = []
     distinct = set()
     try:
         src = os.path.join(root, 'src')
         recon = R.reconstruct(repo, src)
+        R.reconstruct(repo, src + '-decoy', decoy=True)
         jobs = [(c, perturbation(verif_seed, i)) for c in cfgs for i in range(nruns)]
 
         def job(cp):
@@ -204,6 +233,8 @@ def run(prop, tier, verif_seed):
                 fault_counts['stale_outputs_present'] += 1
             if p.get('home_user'):
                 fault_counts['home_user_host_changed'] += 1
+            if p.get('prior_other'):
+                fault_counts['prior_compile_of_other_source'] += 1
             if p['hashseed'] != 0:
                 fault_counts['hashseed_changed'] += 1
             if p['shim']:
@@ -256,7 +287,8 @@ def run(prop, tier, verif_seed):
             'rule': ('Each evaluation is one complete run of tools/tzcompiler.py in a fresh interpreter over the TZ source '
                      'reconstructed from the Rule/Zone/Link lines recorded in src/ace_time/zonedbx, under a seed-drawn '
                      'environment (PYTHONHASHSEED, jumping wall clock, shuffled os.listdir/scandir, reseeded random, fake pid, '
-                     'TZ, locale, umask, cwd depth) with an identical command line. Every emitted file of every run is compared '
+                     'TZ, locale, umask, cwd depth, host/user names, stale output files, an earlier compilation of a '
+                     'DIFFERENT source by the same user in the same directory / home / tmp) with an identical command line. Every emitted file of every run is compared '
                      'byte for byte with the unperturbed control run of its configuration (reason lists inside one comment '
                      'compared as multisets). A run is non-trivial when its hash seed differs from the control or the '
                      'clock/listing shim is active; distinct_nontrivial counts distinct (configuration, perturbation) tuples.'),
@@ -294,7 +326,7 @@ def minimise_perturbation(repo, src, root, cfg, ref, pert, base):
     outputs still differ."""
     cur = dict(pert)
     n = [0]
-    for dim in ('shim', 'stale_outputs', 'home_user', 'tz', 'lang', 'umask', 'cwd_depth', 'hashseed'):
+    for dim in ('shim', 'stale_outputs', 'prior_other', 'home_user', 'tz', 'lang', 'umask', 'cwd_depth', 'hashseed'):
         trial = dict(cur)
         trial[dim] = base[dim]
         if trial == cur:
@@ -328,6 +360,7 @@ def replay(doc, path):
     try:
         src = os.path.join(root, 'src')
         R.reconstruct(repo, src)
+        R.reconstruct(repo, src + '-decoy', decoy=True)
         a = compile_once(repo, src, os.path.join(root, 'a'), doc['config'], doc['control_perturbation'])
         b = compile_once(repo, src, os.path.join(root, 'b'), doc['config'], doc['minimised_perturbation'])
         d = compare(a, b)
